@@ -283,6 +283,25 @@ func driveSec1(c *ctx) {
 		c.E("s1.Split", "in", hx(make([]byte, 33)), "panic", pn, "x", hx(sp), "odd", int(od))
 	}
 
+	// ---- constructors return FRESH objects: mutate what a decode returned, then decode the same bytes again
+	for _, b := range [][]byte{{0}, encCmp(pts[0]), encUnc(pts[1])} {
+		p1, err1 := secp256k1.NewPointFromBytes(append([]byte{}, b...))
+		if err1 != nil {
+			panic(err1)
+		}
+		first := hx(p1.UncompressedBytes())
+		p1.Add(p1, secp256k1.NewGeneratorPoint())
+		p1.Double(p1)
+		p2, err2 := secp256k1.NewPointFromBytes(append([]byte{}, b...))
+		second := ""
+		if err2 == nil {
+			second = hx(p2.UncompressedBytes())
+		}
+		rcv := rep(mulG(big.NewInt(77)), big.NewInt(3))
+		_, err3 := rcv.SetBytes(append([]byte{}, b...))
+		c.E("s1.Fresh", "in", hx(b), "first", first, "second", second, "ok", err2 == nil, "viaset", hx(rcv.UncompressedBytes()), "ok3", err3 == nil)
+	}
+
 	// ---- RecoverPoint: all ids 0..255 on x mod n of real points, on the x >= n window, on non-x-coordinates
 	recover := func(xs *big.Int, id int) {
 		pt, err := secp256k1.RecoverPoint(scFrom(xs), byte(id))
